@@ -1,0 +1,8 @@
+//go:build verif
+
+package snapshots
+
+// Accessors for the verification harness (build tag verif only).
+
+// VerifPathSegment exposes pathSegment (the id encoding used in snapshot file and savepoint directory names).
+func VerifPathSegment(id uint64) string { return pathSegment(id) }
